@@ -34,7 +34,7 @@ type c01Case struct {
 	Slots    [2]string
 	Stale    bool // an owned, matching child that is not desired
 	Foreign  bool // a look-alike owned by another controller, under another name
-	OtherNS  bool // an object with a desired name in the other namespace (namespaced parents only)
+	OtherNS  bool // namespaced parent: an object with a desired name in the other namespace; cluster parent: every desired Leaf has a same-named twin in n2
 	Partial  int  // thorough: deliver only part of the cache changes in the first k rounds (stale caches between syncs)
 }
 
@@ -98,6 +98,15 @@ func c01Program(c c01Case, hook string, cns string) c01Prog {
 		}
 		if c.TwoKinds && hook != "static0" {
 			out = append(out, c01Child(c, kit.Widget, cns, "w", "1"))
+		}
+		if c.Cluster && c.OtherNS {
+			// a cluster-scoped parent with children in two namespaces: every desired Leaf has a twin with the
+			// same name in n2
+			for _, o := range append(kit.L{}, out...) {
+				if om := o.(kit.M); om["kind"] == "Leaf" {
+					out = append(out, c01Child(c, kit.Leaf, "n2", kit.Name(om), kit.Str(om, "spec", "v")))
+				}
+			}
 		}
 		if out == nil {
 			out = kit.L{}
@@ -282,13 +291,13 @@ func c01Run(c c01Case) []mc.Finding {
 	want := map[string]kit.M{}
 	for _, d := range desired {
 		dm := d.(kit.M)
-		want[kit.Str(dm, "kind")+"/"+kit.Name(dm)] = dm
+		want[kit.Str(dm, "kind")+"/"+kit.NS(dm)+"/"+kit.Name(dm)] = dm
 	}
 	got := map[string]kit.M{}
 	for _, k := range kinds {
 		for _, obj := range w.Sim.All(k) {
 			if kit.ControllerUID(obj) == puid && (c.Cluster || kit.NS(obj) == pns) {
-				got[k.Kind+"/"+kit.Name(obj)] = obj
+				got[k.Kind+"/"+kit.NS(obj)+"/"+kit.Name(obj)] = obj
 			}
 		}
 	}
@@ -347,9 +356,6 @@ func TestVerifC01(t *testing.T) {
 											for partial := 0; partial < 3; partial++ {
 												c := c01Case{Cluster: cluster, TwoKinds: two, Method: method, GenSel: gs, Finalize: fin, SSA: ssa, Hook: hook,
 													Slots: [2]string{s0, s1}, Stale: extras&1 != 0, Foreign: extras&2 != 0, OtherNS: extras&4 != 0, Partial: partial}
-												if c.OtherNS && cluster {
-													continue
-												}
 												if !thorough {
 													// quick tier: a covering sub-product (every value of every dimension, forced-to-collide pairs)
 													if partial > 0 || (two && (fin || !gs)) || (cluster && (fin || ssa && !gs)) || (extras != 0 && extras != 7 && extras != 3) ||
